@@ -175,7 +175,13 @@ fn entries() -> Vec<Entry> {
     reg!(v, "ArrayStringValidate", "is_lower", String, |r, a| r.is_lower());
     reg!(v, "ArrayStringValidate", "is_upper", String, |r, a| r.is_upper());
     // ---- ArrayAxis
-    regx!(v, "ArrayAxis", "apply_along_axis", |r, a| r.apply_along_axis(a.us(0, 0), |l: &Array<_>| { poke(); Ok(l.clone()) }));
+    // token 1 selects the closure: (default) identity; `fail` returns an error value; `reent` calls the operation under test itself on the
+    // lane (re-entrancy) before answering; `reentfail` does so with an axis outside the lane's rank and hands that error on
+    regx!(v, "ArrayAxis", "apply_along_axis", |r, a| { let mode = a.s(1).unwrap_or("id"); r.apply_along_axis(a.us(0, 0), |l: &Array<_>| { poke(); match mode {
+        "fail" => Err(ArrayError::ParameterError { param: "probe", message: "closure refuses" }),
+        "reent" => { let inner = l.apply_along_axis(0, |x: &Array<_>| Ok(x.clone()))?; inner.apply_along_axis(0, |x: &Array<_>| x.reshape(&[x.len()?])) }
+        "reentfail" => l.apply_along_axis(5, |x: &Array<_>| Ok(x.clone())),
+        _ => Ok(l.clone()) } }) });
     regx!(v, "ArrayAxis", "transpose", |r, a| r.transpose(a.ovi(0)));
     regx!(v, "ArrayAxis", "moveaxis", |r, a| r.moveaxis(a.vi(0, &[0]), a.vi(1, &[0])));
     regx!(v, "ArrayAxis", "rollaxis", |r, a| r.rollaxis(a.is(0, 0), a.ois(1)));
@@ -504,6 +510,8 @@ impl<'a> Gen<'a> {
             if matches!(cls, "m" | "b" | "u") && self.res_keys.contains(&key) { c.push((cls.to_string(), tr.to_string(), m.to_string(), toks.to_vec())); }
             return;
         }
+        // (huge receivers: `delete` along an axis refuses an index only inside the lane function — the model's apply_along_axis needs ~10 s there)
+        if !self.skip.is_empty() && key == "ArrayManipulate.delete" && toks.get(1).map_or(false, |t| t != "none") { return; }
         if !self.skip.is_empty() && (self.skip.contains(tr) || self.skip.contains(&key) || self.skip.contains(&format!("{cls}.{key}"))) { return; }
         if self.suffix.is_empty() { self.seen.entry(key).or_default().insert(cls.to_string()); }
         else {
@@ -899,6 +907,35 @@ fn gen_part2(g: &mut Gen, thorough: bool, captured: &[Captured]) {
     }
 }
 
+/// 8f/8g (separate function: the borrow of `captured`)
+fn gen_part2_tail(g: &mut Gen, thorough: bool, captured: &[Captured]) {
+    // 8f. closures: an error value returned by the closure of apply_along_axis comes back as an error value (class u: constant `err`);
+    //     a closure that calls apply_along_axis itself on its lane (re-entrancy) works (class n: only a panic fails); a closure whose
+    //     nested call refuses an axis hands that error on
+    let mut sh: Vec<Vec<usize>> = vec![vec![3], vec![2, 3], vec![2, 3, 2], vec![1, 1], vec![2, 31], vec![1, 62], vec![600], vec![2, 2, 2, 2, 2]];
+    if thorough { sh.extend(shapes(1, 3, 1, 3)); }
+    for suf in ["", "-p", "-u8r", "-f64p", "-strr"] {
+        g.with(suf, if suf.is_empty() { Only::All } else if suf == "-p" { Only::ResImpl } else { Only::Generic });
+        for s in &sh { for ax in 0..s.len() {
+            g.e("n", "ArrayAxis", "apply_along_axis", s, &[ax.to_string()]);
+            g.e("u", "ArrayAxis", "apply_along_axis", s, &[ax.to_string(), st("fail")]);
+            g.e("n", "ArrayAxis", "apply_along_axis", s, &[ax.to_string(), st("reent")]);
+            g.e("u", "ArrayAxis", "apply_along_axis", s, &[ax.to_string(), st("reentfail")]);
+            g.e("n", "ArrayAxis", "apply_along_axis", s, &[ax.to_string()]);
+        } }
+    }
+    g.with("", Only::All);
+    // 8g. the same invalid-argument line through every element type / receiver back to back (a static shared by the instantiations)
+    for (cls, tr, m, toks) in captured {
+        if !g.gen_keys.contains(&format!("{tr}.{m}")) { continue; }
+        for suf in ["", "-u8r", "-f64p", "-strr", "-p", "-u8p", "-f64r", ""] {
+            let mut line = format!("{cls}{suf}.{tr}.{m} 2,3");
+            for t in toks { line.push(' '); line.push_str(t); }
+            (g.out)(line);
+        }
+    }
+}
+
 /// traits, `Trait.method` or `class.Trait.method` keys left out on the huge receivers of stream 8c: the real call or the list-backed
 /// model is not an early refusal there (measured: more than ~50 ms per line at 20 000 elements)
 const HUGE_SKIP: &[&str] = &["ArrayStringCompare", "ArrayStringIndexing", "ArrayStringManipulate", "ArrayStringValidate", "ArrayJoining.vstack", "ArrayJoining.row_stack", "o.ArrayReorder.flip"];
@@ -973,6 +1010,7 @@ fn gen(tier: &str, _seed: u64, out: &mut dyn FnMut(String)) {
 
     // 8. ROBUSTNESS STREAMS, PART 2
     gen_part2(&mut g, thorough, &captured);
+    gen_part2_tail(&mut g, thorough, &captured);
 
     // 5. option spellings through the five public parsers (&str and String impls)
     let seen = std::mem::take(&mut g.seen);
@@ -1021,7 +1059,42 @@ fn parse_opt(p: &str, text: String, string_impl: bool) -> Option<String> {
     }))
 }
 
+thread_local! {
+    /// A-B-A: the previous case line (op, arguments) and the outcome text of its call
+    static PREV: std::cell::RefCell<Option<(String, Vec<String>, String)>> = std::cell::RefCell::new(None);
+}
+/// the outcome text of a case line's call (classes with a receiver shape / an error receiver); `None` for the other classes
+fn observe(op: &str, args: &[&str]) -> Option<String> {
+    let (cls_full, rest) = op.split_once('.')?;
+    let mut parts = cls_full.split('-');
+    let cls = parts.next()?;
+    let mut alt = "";
+    for f in parts { if f != "z" { alt = f; } }
+    match cls {
+        "p" | "ea" => { let i: usize = args.get(1)?.strip_prefix('e')?.parse().ok()?; let errs = error_values(); let e = errs.get(i)?; run_entry(rest, alt, &Rc::Err(e), if cls == "ea" { &args[2..] } else { &[] }) }
+        "m" | "b" | "u" | "o" | "n" | "t" => run_entry(rest, alt, &Rc::Shape(parse_usize_list(args.first()?)), &args[1..]),
+        _ => None,
+    }
+}
+/// A-B-A discipline: after case B the previous case A is invoked again and must give the outcome it gave before B
 fn exec(op: &str, args: &[&str], expected: &str) -> Option<Verdict> {
+    let v = exec_case(op, args, expected)?;
+    let prev = PREV.with(|p| p.borrow_mut().take());
+    let mut verdict = v;
+    if let (Verdict::Match(_) | Verdict::Open(_), Some((pop, pargs, ptext))) = (&verdict, &prev) {
+        let pa: Vec<&str> = pargs.iter().map(String::as_str).collect();
+        if let Some(again) = observe(pop, &pa) {
+            if &again != ptext { verdict = Verdict::Mismatch { observed: again, detail: format!("A-B-A: after this case the PREVIOUS case `{pop} {}` gives another outcome; before: `{ptext}`", pargs.join(" ")) }; }
+        }
+    }
+    // remember this case (cheap receivers only: the re-run costs one call)
+    let small = args.first().map_or(false, |a| a.split(',').filter_map(|x| x.parse::<usize>().ok()).product::<usize>() <= 5000);
+    if small { if let (Verdict::Match(t) | Verdict::Open(t), true) = (&verdict, observe_class(op)) { PREV.with(|p| *p.borrow_mut() = Some((op.to_string(), args.iter().map(|x| x.to_string()).collect(), t.trim_start_matches("closure-called (").trim_end_matches(')').to_string()))); } }
+    Some(verdict)
+}
+fn observe_class(op: &str) -> bool { matches!(op.split_once('.').map(|x| x.0.split('-').next().unwrap_or("")), Some("m" | "b" | "u" | "o" | "n" | "t" | "p" | "ea")) }
+
+fn exec_case(op: &str, args: &[&str], expected: &str) -> Option<Verdict> {
     let (cls_full, rest) = op.split_once('.')?;
     // class suffixes of the robustness streams: `-z` zero-size receiver, anything else names the receiver / element-type variant
     let mut parts = cls_full.split('-');
@@ -1088,5 +1161,5 @@ fn nontrivial(op: &str, _args: &[&str]) -> bool { matches!(op.split_once('.').ma
 
 fn main() {
     harness_main(Spec { prop: "C09", gen, exec, nontrivial, hang_secs: 20,
-        rule: "ROBUSTNESS STREAMS: the invalid-argument classes below also on big receivers ([600],[1030],[4100],[2,600],[600,2],[65,3],[3,65],[2,70,2],[17,16],[70,70],[5,5,5,5]; thorough +10), on every zero_shapes() receiver (class suffix -z), through the plain receiver (-p, all 203 Result-receiver methods) and on u8/f64/String arrays through both receivers (46 generic methods) for 6 (11) shapes incl. [600],[2,600] and 4 zero-size shapes; option names as enum/&str/String: 20 blank / whitespace / padded / non-ASCII names x 9 option-taking calls, valid names in all three spellings combined with an invalid axis / operand; ea = every invalid-argument line of shape [2,3] invoked on Err(e) for 2 (4) of the 23 error values; propagation also through the Result impls at u8/f64/String; each m/b/u call made twice. BASE: every method of the regenerated inventory is registered once (inv.* lines compare the registry with Tables.lean); classes: p = 205 Result-receiver methods x 23 error values (15 variants, payload and empty payload); m/b/u = arguments the statement calls invalid (axis = rank, rank+1, isize::MAX, -rank-1, isize::MIN, +-1000 at every position; wrong-length axis/coordinate lists; index = bound, bound+1, usize::MAX; non-fitting shapes; zero parts; unknown option names) on 16 shapes of rank 1..4 (quick) / all shapes rank<=4 len<=3 + 4 larger (thorough); opt = 80 spellings x 5 parsers x {&str,String}; n/t = smoke and extreme values (only panic fails); o = open regions. distinct = distinct case lines; non-trivial = classes m,b,u,p,ea,opt (any suffix)" });
+        rule: "PART 2: invalid axes REPEATED 2/3/4 times inside an axis list, alone and mixed with valid axes in every position (3-5 unsorted entries), through every axis-list argument (flip, squeeze, transpose, moveaxis source/destination/both, roll, rot90, expand_dims relative to the result rank, norm) on 9 (18) receivers incl. [600],[17,16],[2,70,2], the plain receiver, u8/f64/String arrays and zero-size receivers; every invalid-argument class on receivers of rank 5..8 and on HUGE receivers ([20000],[70000],[2,10000],[10000,2],[130,130],[40,30,30],[16385],[2,70000],[10,11,12,13]; thorough +6 up to 140001 elements; also plain / u8 / f64 receivers and the option-name and repeated-axis streams) - left out there: the String traits, vstack/row_stack and delete along an axis (not an early refusal: seconds per call or per model run); hidden state: colliding receiver shapes (equal-count polynomial-hash siblings [2,m]/[1,2m], collision_shape_pairs, permuted axes, lengths equal modulo 2^8) interleaved in both orders through a smoke call of every shape-sensitive method and refused axes / indices / shapes, so that every failing call is directly followed by a valid call on the sibling; A-B-A: after EVERY case the previous case is invoked again and must give the same outcome; closures: apply_along_axis with a closure that returns an error value, that calls apply_along_axis itself (re-entrancy) and whose nested call refuses an axis, 5 receivers / element types; every invalid-argument line of shape [2,3] of the 46 generic methods through i64/u8/f64/String and both receivers back to back; narrowing images c+2^8, c+2^16, c+2^32 of valid axes / indices / coordinates. ROBUSTNESS STREAMS: the invalid-argument classes below also on big receivers ([600],[1030],[4100],[2,600],[600,2],[65,3],[3,65],[2,70,2],[17,16],[70,70],[5,5,5,5]; thorough +10), on every zero_shapes() receiver (class suffix -z), through the plain receiver (-p, all 203 Result-receiver methods) and on u8/f64/String arrays through both receivers (46 generic methods) for 6 (11) shapes incl. [600],[2,600] and 4 zero-size shapes; option names as enum/&str/String: 20 blank / whitespace / padded / non-ASCII names x 9 option-taking calls, valid names in all three spellings combined with an invalid axis / operand; ea = every invalid-argument line of shape [2,3] invoked on Err(e) for 2 (4) of the 23 error values; propagation also through the Result impls at u8/f64/String; each m/b/u call made twice. BASE: every method of the regenerated inventory is registered once (inv.* lines compare the registry with Tables.lean); classes: p = 205 Result-receiver methods x 23 error values (15 variants, payload and empty payload); m/b/u = arguments the statement calls invalid (axis = rank, rank+1, isize::MAX, -rank-1, isize::MIN, +-1000 at every position; wrong-length axis/coordinate lists; index = bound, bound+1, usize::MAX; non-fitting shapes; zero parts; unknown option names) on 16 shapes of rank 1..4 (quick) / all shapes rank<=4 len<=3 + 4 larger (thorough); opt = 80 spellings x 5 parsers x {&str,String}; n/t = smoke and extreme values (only panic fails); o = open regions. distinct = distinct case lines; non-trivial = classes m,b,u,p,ea,opt (any suffix)" });
 }
